@@ -22,6 +22,10 @@ func gen(stream, tier string, seed uint64) {
 		genJsonDec(tier, seed)
 	case "jsonenc":
 		genJsonEnc(tier, seed)
+	case "marshal":
+		genMarshal(tier, seed)
+	case "unmarshal":
+		genUnmarshal(tier, seed)
 	case "wfault":
 		genWFault(tier, seed)
 	case "rfault":
